@@ -56,6 +56,11 @@ func main() {
 	}
 }
 
+// stopAtFirst: a worker ends its loop after reporting one violation (used by the sensitivity
+// self-test and by seed evaluation, where only "is it caught, and does the replay reproduce"
+// matters; never by the registered checks, whose evidence must describe a complete batch).
+var stopAtFirst bool
+
 func cmdWorker(args []string) {
 	fs := flag.NewFlagSet("worker", flag.ExitOnError)
 	engine := fs.String("engine", "", "")
@@ -69,7 +74,9 @@ func cmdWorker(args []string) {
 	outp := fs.String("out", "", "")
 	replayDir := fs.String("replay-dir", "replays", "")
 	noMin := fs.Bool("no-minimise", false, "")
+	first := fs.Bool("first", false, "stop after the first violation")
 	fs.Parse(args)
+	stopAtFirst = *first
 	st := NewStats()
 	fmt.Fprintf(os.Stderr, "goldsim worker engine=%s prop=%s VERIF_SEED=%d tier=%s shard=%d/%d\n", *engine, *prop, *seed, *tier, *shard, *of)
 	switch *engine {
